@@ -106,12 +106,13 @@ def encode_sequence(content, error=None, version=None, mode=None, mask=None,
         Creates a Segments sequence with one item.
         """
         segs = Segments()
-        segs.add_segment(make_segment(chunk, mode=mode, encoding=encoding))
+        segs.add_segment(make_segment(chunk, mode=mode, encoding=data_encoding))
         return segs
 
     def divide_into_chunks(data, num):
-        k, m = divmod(len(data), num)
-        return [data[i * k + min(i, m):(i + 1) * k + min(i + 1, m)] for i in range(num)]
+        # char_size: Kanji and Hanzi characters occupy two bytes
+        k, m = divmod(len(data) // char_size, num)
+        return [data[(i * k + min(i, m)) * char_size:((i + 1) * k + min(i + 1, m)) * char_size] for i in range(num)]
 
     def calc_qrcode_bit_length(char_count, ver_range, mode, encoding=None,
                                is_eci=False, is_sa=False):
@@ -142,9 +143,9 @@ def encode_sequence(content, error=None, version=None, mode=None, mask=None,
         """\
         Returns the number of symbols for the provided version.
         """
-        length = len(content)
+        length = len(content) // char_size
         ver_range = version_range(version)
-        bit_length = calc_qrcode_bit_length(length, ver_range, mode, encoding,
+        bit_length = calc_qrcode_bit_length(length, ver_range, mode, data_encoding,
                                             is_eci=eci, is_sa=True)
         capacity = consts.SYMBOL_CAPACITY[version][error]
         # Initial result does not contain the overhead of SA mode for all QR Codes
@@ -185,9 +186,11 @@ def encode_sequence(content, error=None, version=None, mode=None, mask=None,
         raise ValueError('This function cannot handle more than one mode (yet). Sorry.')
     mode = segments.modes[0]  # CHANGE iff more than one mode is supported!
     # Creating one QR code failed or max_no is not None
-    if mode == consts.MODE_NUMERIC:
-        content = str(content)
-    if symbol_count is not None and len(content) < symbol_count:
+    # Split the encoded message (bytes), not the characters: the parity data
+    # and the payload of all symbols must refer to the same byte sequence
+    content, _, data_encoding = data_to_bytes(content, encoding if mode != consts.MODE_HANZI else consts.HANZI_ENCODING)
+    char_size = 2 if mode in (consts.MODE_KANJI, consts.MODE_HANZI) else 1
+    if symbol_count is not None and len(content) // char_size < symbol_count:
         raise ValueError(f'The content is not long enough to be divided into {symbol_count} symbols')
     sa_parity_data = calc_structured_append_parity(content)
     num_symbols = symbol_count or 16
@@ -1442,6 +1445,8 @@ def calc_structured_append_parity(content):
     :param str content: The content.
     :rtype: int
     """
+    if isinstance(content, bytes):
+        return reduce(xor, content)
     if not isinstance(content, str):
         content = str(content)
     try:
